@@ -220,6 +220,15 @@ func c12R1(c *Ctx, rule string) {
 					}
 				})
 				if !dom {
+					// not by dominance: every way from the write to this return on which the error is non-nil passes
+					// passiveClose (edges that assert the error to be nil are cut — the error may be tested twice)
+					ret := r
+					esc := edgeSearch(sd, call, func(at Atom) bool {
+						return at.Kind == "cmp" && at.Op == token.EQL && (at.X == errV || at.Y == errV) && (isNilConst(at.X) || isNilConst(at.Y))
+					}, func(j ssa.Instruction) bool { return callsFn(j, a.passiveClose) }, func(j ssa.Instruction) bool { return j == ssa.Instruction(ret) })
+					dom = esc == nil
+				}
+				if !dom {
 					bad = c.at(r)
 				}
 			}
